@@ -360,6 +360,9 @@ def run_obligation(ob, seed=0):
                 rec['discharged'] += 1
             elif c['verdict'] == 'unknown':
                 rec['unknown_claims'] += 1
+                rec.setdefault('unknown_labels', [])
+                if len(rec['unknown_labels']) < 10:
+                    rec['unknown_labels'].append(c['label'])
             else:
                 _replay_claim(ob, c, rec)
         if sample is not None:
